@@ -122,7 +122,11 @@ def run_check(pid, tier, seed):
         tie_state = []
         for tname in ties:
             tname, fns = (tname, None) if isinstance(tname, str) else tname
-            st = tie.check(tname, fns)
+            try:
+                st = tie.check(tname, fns)
+            except Exception as ex:      # the translation tie never decides a verdict, so it must never break a check
+                st = {"tie": tname, "status": "unavailable", "reason": "internal error in the tie check: %s: %s" % (type(ex).__name__, ex),
+                      "functions_tied": [], "functions_not_tied": sorted(fns or [])}
             tie_state.append(st)
             if st["status"] not in ("holds", "holds-rechecked"):
                 print("note: translation tie `%s` is %s (%s) - the correspondence tie decides; larger budget" % (
